@@ -8,7 +8,7 @@
    change the outcome, so the same evaluation serves the N-invocation stress cases.
 
    Result (list Z, codes only):
-     [ done ; kind ; clean ; killed ; spec_obs ; demand ; uniform ; len path ] ++ path
+     [ done ; kind ; clean ; killed ; spec_obs ; demand ; uniform ; len path ] ++ path ++ [ held ]
    done     1 = the parent finished within the fuel, 0 = it did not (never a normal value)
    kind     1 returns the callee's value, 2 returns something else, 3 raises the callee's
             exception, 4 raises the `.exception` attribute of the callee's RETURN value,
@@ -17,7 +17,11 @@
    killed   the kill really hit a live child in the model
    spec_obs Spec.outcome_ok on the OBSERVED outcome of the implementation
    uniform  Spec.report_uniform on the observed outcome against the observed reference report
-   demand   1 return, 2 callee's exception, 3 RuntimeError (PEP 479), 4 some other exception *)
+   demand   1 return, 2 callee's exception, 3 RuntimeError (PEP 479), 4 some other exception
+   held     1 = in the cancellation scenarios, when the parent coroutine has run on its own as far as
+            it gets after CancelledError was delivered (its handler has no suspension point), it sits
+            in a synchronous call that cannot return yet WHILE THE CALLEE IS STILL COMPUTING: the loop
+            thread is held for as long as the callee runs (the harness sees the ticker stand still) *)
 From Coq Require Import List Arith Bool ZArith.
 From PV Require Import Base.Exn Model.PipeKernel Model.Subproc Spec.SubprocSpec Gen.Subproc.
 Import ListNotations.
@@ -32,9 +36,12 @@ Inductive killpoint :=
 | KCancelInCallee      (* ... while it waits and the callee computes *)
 | KCancelAfterSent.    (* ... while it still waits although the child has already sent / has gone *)
 
-Definition mk_beh (out : cout) (raised : exn) (big pick asy reterr unp : bool) : beh :=
+Definition mk_beh_sig (out : cout) (raised : exn) (big pick asy reterr unp tf : bool) : beh :=
   {| b_out := out; b_isa := fun c => derives raised c; b_big := big; b_pick := pick; b_async := asy;
-     b_ret_err := reterr; b_unp := unp |}.
+     b_ret_err := reterr; b_unp := unp; b_term_fatal := tf |}.
+(* default signal dispositions in the child: SIGTERM is fatal *)
+Definition mk_beh (out : cout) (raised : exn) (big pick asy reterr unp : bool) : beh :=
+  mk_beh_sig out raised big pick asy reterr unp true.
 
 Section Run.
   Variable b : beh.
@@ -82,18 +89,28 @@ Section Run.
   Definition child_sent (s : lst) : bool :=
     negb (c_running s) || match c_pend (cs s) with CPHandled => true | _ => false end.
 
-  Definition run_case (k : killpoint) : lst :=
+  (* the parent coroutine holds the loop thread in a synchronous call that cannot return yet while
+     the callee has not returned (SubprocLocal.sync_blocked && callee_pending, restated: no proofs here) *)
+  Definition is_run_op (o : cop) : bool := match o with CRunCallee _ => true | _ => false end.
+  Definition held_while_computing (s : lst) : bool :=
+    p_running s && match lstep P C b 0 LParent s with Some _ => false | None => true end &&
+    c_running s && existsb is_run_op (skipn (c_pc (cs s)) C).
+
+  (* the state in which the scenario is set up; for a cancellation: CancelledError has been delivered
+     and the parent coroutine has run on its own until it finishes or cannot move (the callee of the
+     scenario computes for long, the handler around the wait has no suspension point) *)
+  Definition run_case_pre (k : killpoint) : lst :=
     let s1 := until_forked 40 linit in
-    let s2 := match k with
-              | KNone => s1
-              | KAfterFork => kill_if c_running s1
-              | KInCallee => kill_if (fun s => c_running s && at_callee s) (child_until at_callee 40 s1)
-              | KMidSend => kill_if (fun s => c_running s && mid_send s) (child_until mid_send 40 s1)
-              | KCancelBeforeStart => step_or_stay LCancel linit
-              | KCancelInCallee => step_or_stay LCancel (child_until at_callee 40 (until_waiting 40 s1))
-              | KCancelAfterSent => step_or_stay LCancel (child_until child_sent 40 (until_waiting 40 s1))
-              end in
-    alternate 200 s2.
+    match k with
+    | KNone => s1
+    | KAfterFork => kill_if c_running s1
+    | KInCallee => kill_if (fun s => c_running s && at_callee s) (child_until at_callee 40 s1)
+    | KMidSend => kill_if (fun s => c_running s && mid_send s) (child_until mid_send 40 s1)
+    | KCancelBeforeStart => step_or_stay LCancel linit
+    | KCancelInCallee => until_waiting 40 (step_or_stay LCancel (child_until at_callee 40 (until_waiting 40 s1)))
+    | KCancelAfterSent => until_waiting 40 (step_or_stay LCancel (child_until child_sent 40 (until_waiting 40 s1)))
+    end.
+  Definition run_case (k : killpoint) : lst := alternate 200 (run_case_pre k).
 End Run.
 
 Definition zb (x : bool) : Z := if x then 1%Z else 0%Z.
@@ -111,9 +128,14 @@ Definition final_code (f : pfinal) : Z * list Z :=
 Definition demand_code (d : demand) : Z :=
   match d with DReturn => 1%Z | DRaiseCallee => 2%Z | DRaisePEP479 => 3%Z | DRaiseOther => 4%Z end.
 
-Definition eval_case (out : cout) (raised : exn) (big pick asy reterr unp : bool) (kw : kwcoll) (k : killpoint)
+(* tf: SIGTERM is fatal for the child (false: the application's own SIGTERM disposition is inherited) *)
+Definition eval_case (out : cout) (raised : exn) (big pick asy reterr unp tf : bool) (kw : kwcoll) (k : killpoint)
                      (obs_killed : bool) (obs : pfinal) (ref : exn) : list Z :=
-  let b := mk_beh out raised big pick asy reterr unp in
+  let b := mk_beh_sig out raised big pick asy reterr unp tf in
+  let held := match kw with
+    | KWParent => if kw_parent_safe Gen.Subproc.kw_flags then held_while_computing b (run_case_pre b k) else false
+              | _ => let b' := beh_kw Gen.Subproc.kw_flags kw b in held_while_computing b' (run_case_pre b' k)
+              end in
   (* keyword names that collide with the implementation's own parameters (Model/Subproc.v, lrun_kw) *)
   let s := match kw with
            | KWParent => if kw_parent_safe Gen.Subproc.kw_flags then run_case b k
@@ -126,6 +148,6 @@ Definition eval_case (out : cout) (raised : exn) (big pick asy reterr unp : bool
   match p_stat (ps s) with
   | PSDone f =>
       let '(kind, path) := final_code f in
-      [1%Z; kind; zb (clean_exit s); zb (c_killed (cs s)); spec_obs; demand_code (demanded b); uniform] ++ path
-  | _ => [0%Z; 0%Z; 0%Z; zb (c_killed (cs s)); spec_obs; demand_code (demanded b); uniform; 0%Z]
+      [1%Z; kind; zb (clean_exit s); zb (c_killed (cs s)); spec_obs; demand_code (demanded b); uniform] ++ path ++ [zb held]
+  | _ => [0%Z; 0%Z; 0%Z; zb (c_killed (cs s)); spec_obs; demand_code (demanded b); uniform; 0%Z; zb held]
   end.
